@@ -591,3 +591,27 @@ func holdsDeprecated(envOld, envNew *schema.Env, ty schema.Ty, v Val) bool {
 	}
 	return false
 }
+
+// PlantLongString returns a copy of v in which the LAST string leaf in field order (array elements, struct and
+// message fields, map values, union members; never a map key) is replaced by an n-byte ASCII string, and
+// whether there was such a leaf. Long strings are where a decoder may switch to a different read strategy.
+func PlantLongString(v Val, n int) (Val, bool) {
+	switch v.K {
+	case KStr:
+		b := make([]byte, n)
+		for i := range b {
+			b[i] = byte('a' + i%26)
+		}
+		return Val{K: KStr, B: b}, true
+	case KArr, KStruct, KMsg, KMap, KUnion:
+		for i := len(v.Elems) - 1; i >= 0; i-- {
+			if e, ok := PlantLongString(v.Elems[i], n); ok {
+				out := v
+				out.Elems = append([]Val(nil), v.Elems...)
+				out.Elems[i] = e
+				return out, true
+			}
+		}
+	}
+	return v, false
+}
